@@ -344,7 +344,14 @@ func (r *RunResult) Finish() int {
 	perRule := map[string][2]int{}
 	var samples []any
 	sampleRules := map[string]int{}
-	replayDir := filepath.Join(r.VerifDir, "replay")
+	// VERIF_OUT redirects evidence and replay files (used when the checks are
+	// pointed at a scratch copy of the repository, so that /verif/evidence
+	// always describes a run against /repo itself).
+	outDir := r.VerifDir
+	if d := os.Getenv("VERIF_OUT"); d != "" {
+		outDir = d
+	}
+	replayDir := filepath.Join(outDir, "replay")
 	for _, k := range order {
 		a := byKey[k]
 		o := a.o
@@ -463,9 +470,9 @@ func (r *RunResult) Finish() int {
 	if ev.Assumptions == nil {
 		ev.Assumptions = []string{}
 	}
-	os.MkdirAll(filepath.Join(r.VerifDir, "evidence"), 0o755)
+	os.MkdirAll(filepath.Join(outDir, "evidence"), 0o755)
 	b, _ := json.MarshalIndent(ev, "", " ")
-	if err := os.WriteFile(filepath.Join(r.VerifDir, "evidence", r.Prop.ID+".json"), append(b, '\n'), 0o644); err != nil {
+	if err := os.WriteFile(filepath.Join(outDir, "evidence", r.Prop.ID+".json"), append(b, '\n'), 0o644); err != nil {
 		fmt.Fprintf(os.Stderr, "cannot write evidence: %v\n", err)
 		return 2
 	}
